@@ -145,7 +145,7 @@ def flatten(ctx):
             it = N.local_term(lid)
             ok = it[0] == "mut" and show(it[2]) == "HashSet::new()" and len(it[3]) == 1 and it[3][0][0] == "mutarg" \
                 and it[3][0][1] == "derives::collect_type_ids" and [show(a) for a in it[3][0][2]] == ["%s.id" % E, "P%d" % i_reg, "&self"] \
-                and [g for g in it[3][0][3] if g.startswith("for(")] == ["for(%s)" % REG]
+                and [show(g) for g in it[3][0][3] if show(g).startswith("for(")] == ["for(%s)" % REG]
             ctx.expect(ok, "C08.4", "flatten/reachable-set", fn["sp"],
                        "the id set is fresh per entry and filled by the reachability traversal started at THIS entry's id",
                        "the id set is built as " + show(it)[:600])
